@@ -699,6 +699,11 @@ func runC10(r *Rand, tier string, o *Out) {
 		}
 		o.Count("busy-consumer")
 	}
+	// a peer that stops reading for eleven seconds in the middle of large frames
+	if out := o.Do("P", "c10.stall", true); out != "ok" {
+		o.Fail("a peer that stops reading for a while: "+strings.SplitN(strings.TrimPrefix(out, "fail:"), " ", 2)[0], "c10.stall => "+out)
+	}
+	o.Count("stalled-peer")
 	transports := []string{"mem", "unix", "tcp", "tcps", "pipe", "qpipe"}
 	rounds := 40
 	if tier == "thorough" {
